@@ -559,7 +559,7 @@ Section RoundTrip.
       assert (Hmap : map_prefix pmap (unop_rule wn uo p) (Some e) = Ok (Some (EUn uo e))).
       { unfold map_prefix. destruct uo; cbn [unop_rule];
           [rewrite H_pneg; reflexivity | destruct (wn p); [rewrite H_pnot | rewrite H_pinv]; reflexivity | discriminate]. }
-      eapply E_prefix; [exact Hops | | exact Hmap | exact HL].
+      eapply E_prefix; [reflexivity | exact Hops | | exact Hmap | exact HL].
       apply operand; [exact (IHe Hwe) | | apply loop_stops; eapply follows_le; [exact Hf | exact Hrle]].
       intro E. split; [|split; [lia|]].
       + apply layers_0_le in E. lia.
@@ -570,7 +570,7 @@ Section RoundTrip.
       eapply post_operand; [exact (IHe Hwf) | exact Hpre | reflexivity | exact H_fact | exact pre_lt_fact | exact Hb | apply Po_fact | exact HL].
     - (* ESpread *)
       cbn [wf] in Hwf. cbn [app].
-      eapply E_prefix; [exact H_spr | | unfold map_prefix; rewrite H_pspr; reflexivity | exact HL].
+      eapply E_prefix; [reflexivity | exact H_spr | | unfold map_prefix; rewrite H_pspr; reflexivity | exact HL].
       eapply E_primary; [reflexivity | apply P_expr; apply items_wrapi; exact (IHe Hwf) |].
       apply loop_stops. exact Hf.
   Qed.
@@ -587,7 +587,7 @@ Section RoundTrip.
 End RoundTrip.
 
 (* ------------------------------------------------------------------ the generated table *)
-Require Import Blots.gen.PrecTable Blots.proofs.PrattTable.
+Require Import Blots.gen.PrecTable Blots.proofs.PrattTable Blots.proofs.PrattFuel.
 
 Lemma impl_infix : forall o,
   ops_get impl_table (binop_rule o) = Some (Infix (if spec_rassoc o then ARight else ALeft), spec_bprec o).
@@ -605,11 +605,11 @@ Proof. destruct o; vm_compute; repeat constructor. Qed.
 Definition parse_impl (fuel : nat) (its : list item) : outcome tres :=
   parse_items impl_table infix_map prefix_map fuel its.
 
-Theorem pratt_spec_roundtrip_all : forall par wn t, wf t = true ->
-  exists n, forall m, n <= m -> parse_impl m (spec_render par wn t) = Ok (Some t).
+Theorem pratt_spec_items : forall par wn t, wf t = true ->
+  Items impl_table infix_map prefix_map (spec_render par wn t) t.
 Proof.
-  intros par wn t H. unfold parse_impl, spec_render.
-  apply roundtrip_fun; try exact H; try (vm_compute; reflexivity).
+  intros par wn t H. unfold spec_render.
+  apply roundtrip_items; try exact H; try (vm_compute; reflexivity).
   - exact impl_infix.
   - exact infix_map_binop_rule.
   - exact spec_prec_pos.
@@ -618,6 +618,18 @@ Proof.
   - vm_compute. repeat constructor.
   - exact spec_level_assoc.
   - exact builtin_names_roundtrip.
+Qed.
+
+Theorem pratt_spec_roundtrip_all : forall par wn t, wf t = true ->
+  exists n, forall m, n <= m -> parse_impl m (spec_render par wn t) = Ok (Some t).
+Proof. intros par wn t H. unfold parse_impl. apply items_sound. apply pratt_spec_items. exact H. Qed.
+
+(* with the concrete fuel of `pratt` (4 * token count + 4): no "large enough" *)
+Theorem pratt_spec_roundtrip_ample : forall par wn t, wf t = true ->
+  pratt_impl (spec_render par wn t) = Ok (Some t).
+Proof.
+  intros par wn t H. unfold pratt_impl, pratt.
+  apply (items_bound impl_table infix_map prefix_map _ t (pratt_spec_items par wn t H)). lia.
 Qed.
 
 (* the minimally and the fully parenthesised rendering under spec_table both recover t; hence they
@@ -648,4 +660,152 @@ Proof.
   destruct (pratt_spec_roundtrip_all par1 wn1 t H) as [n1 H1].
   destruct (pratt_spec_roundtrip_all par2 wn2 t H) as [n2 H2].
   exists (n1 + n2). intros m Hm. rewrite H1, H2 by lia. reflexivity.
+Qed.
+
+(* the specification table is unambiguous: no token stream is a rendering of two different trees *)
+Corollary renderings_unambiguous : forall par1 wn1 par2 wn2 t1 t2,
+  wf t1 = true -> wf t2 = true ->
+  spec_render par1 wn1 t1 = spec_render par2 wn2 t2 -> t1 = t2.
+Proof.
+  intros par1 wn1 par2 wn2 t1 t2 H1 H2 E.
+  pose proof (pratt_spec_roundtrip_ample par1 wn1 t1 H1) as A.
+  pose proof (pratt_spec_roundtrip_ample par2 wn2 t2 H2) as B.
+  rewrite E in A. rewrite A in B. congruence.
+Qed.
+
+(* ------------------------------------------------------------------ the parser only builds wf trees *)
+Section OutputsWf.
+  Variable tbl : ops_map.
+  Variable imap : list (oprule * binop).
+  Variable pmap : list (oprule * prefix_ctor).
+  (* no map_prefix arm builds UnaryOp::Invert (checked on the generated arms at instantiation) *)
+  Hypothesis no_invert : forall r, assoc_find r pmap <> Some (PUn Invert).
+
+  Definition wf_cms (l : list (commented expr)) : bool :=
+    (fix go (l : list (commented expr)) : bool :=
+       match l with [] => true | c :: l' => plain_cm c && (match c with Cm _ e _ => wf e end) && go l' end) l.
+  Definition wf_ents (l : list (commented rentry)) : bool :=
+    (fix go (l : list (commented rentry)) : bool :=
+       match l with
+       | [] => true
+       | c :: l' =>
+           plain_cm c &&
+           (match c with
+            | Cm _ (REntry k v) _ =>
+                match k with
+                | KStatic _ => wf v
+                | KDyn e => wf e && wf v
+                | KShort _ => is_null v
+                | KSpread e => wf e && is_null v
+                end
+            end) && go l'
+       end) l.
+  Definition wf_args (l : list expr) : bool :=
+    (fix go (l : list expr) : bool := match l with [] => true | a :: l' => wf a && go l' end) l.
+
+  Lemma wf_cms_app : forall a b, wf_cms (a ++ b) = wf_cms a && wf_cms b.
+  Proof.
+    induction a as [|c a IH]; intro b; [reflexivity|].
+    change (wf_cms ((c :: a) ++ b)) with (plain_cm c && (match c with Cm _ e _ => wf e end) && wf_cms (a ++ b)).
+    change (wf_cms (c :: a)) with (plain_cm c && (match c with Cm _ e _ => wf e end) && wf_cms a).
+    rewrite IH. rewrite !andb_assoc. reflexivity.
+  Qed.
+
+  Theorem outputs_wf :
+    (forall rbp its t rest, Expr tbl imap pmap rbp its t rest -> wf t = true) /\
+    (forall rbp lhs its t rest, Loop tbl imap pmap rbp lhs its t rest -> wf lhs = true -> wf t = true) /\
+    (forall lhs i u, Post tbl imap pmap lhs i u -> wf lhs = true -> wf u = true) /\
+    (forall i x, Prim tbl imap pmap i x -> wf x = true) /\
+    (forall its t, Items tbl imap pmap its t -> wf t = true) /\
+    (forall args es, Args tbl imap pmap args es -> wf_args es = true) /\
+    (forall els es, LEls tbl imap pmap els es -> wf_cms es = true) /\
+    (forall els es, REls tbl imap pmap els es -> wf_ents es = true) /\
+    (forall els stmts ret t, DEls tbl imap pmap els stmts ret t ->
+        wf_cms stmts = true -> plain_cm ret = true -> (match ret with Cm _ e _ => wf e end) = true ->
+        wf t = true).
+  Proof.
+    apply parse_rel_mutind.
+    - (* E_prefix *)
+      intros rbp i r p its x mid u t rest _ _ _ Hx Hpre _ IH. apply IH.
+      unfold map_prefix in Hpre. destruct (assoc_find r pmap) as [[uo|]|] eqn:E; inversion Hpre; subst.
+      + cbn [wf]. rewrite Hx. destruct uo; try reflexivity. exfalso. exact (no_invert r E).
+      + exact Hx.
+    - (* E_primary *) intros rbp i its x t rest _ _ Hx _ IH. exact (IH Hx).
+    - (* L_stop *) intros. assumption.
+    - (* L_infix *)
+      intros rbp lhs i r a p its rhs mid u t rest _ _ _ _ Hr Hin _ IH Hl. apply IH.
+      unfold map_infix in Hin. destruct (assoc_find r imap); inversion Hin; subst.
+      cbn [wf]. rewrite Hl, Hr. reflexivity.
+    - (* L_postfix *) intros rbp lhs i r p its u t rest _ _ _ _ IH1 _ IH2 Hl. exact (IH2 (IH1 Hl)).
+    - intros lhs Hl. exact Hl.
+    - intros lhs inner i _ Hi Hl. cbn [wf]. rewrite Hl, Hi. reflexivity.
+    - intros lhs f Hl. exact Hl.
+    - intros lhs args es _ Ha Hl. cbn [wf]. rewrite Hl. exact Ha.
+    - reflexivity.
+    - reflexivity.
+    - reflexivity.
+    - reflexivity.
+    - reflexivity.
+    - intros s H. cbn [wf]. rewrite H. reflexivity.
+    - reflexivity.
+    - intros b g t _ H. exact H.
+    - intros els es _ H. exact H.
+    - intros els es _ H. exact H.
+    - intros args body b _ H. exact H.
+    - intros c t e c' t' e' _ H1 _ H2 _ H3. cbn [wf]. rewrite H1, H2, H3. reflexivity.
+    - intros els t _ H. apply H; reflexivity.
+    - intros x v v' _ H. exact H.
+    - intros its t rest _ H. exact H.
+    - reflexivity.
+    - intros g e gs es _ H1 _ H2. change (wf_args (e :: es)) with (wf e && wf_args es). rewrite H1, H2. reflexivity.
+    - reflexivity.
+    - intros s els es _ H. exact H.
+    - intros g eol e els es _ H1 _ H2.
+      change (wf_cms (uncommented e :: es)) with (true && wf e && wf_cms es). rewrite H1, H2. reflexivity.
+    - reflexivity.
+    - intros s els es _ H. exact H.
+    - intros s v eol v' els es _ H1 _ H2.
+      change (wf_ents (uncommented (REntry (KStatic s) v') :: es)) with (true && wf v' && wf_ents es).
+      rewrite H1, H2. reflexivity.
+    - intros s v eol v' els es _ H1 _ H2.
+      change (wf_ents (uncommented (REntry (KStatic s) v') :: es)) with (true && wf v' && wf_ents es).
+      rewrite H1, H2. reflexivity.
+    - intros inner k v eol v' els es _ H0 _ H1 _ H2.
+      change (wf_ents (uncommented (REntry (KDyn k) v') :: es)) with (true && (wf k && wf v') && wf_ents es).
+      rewrite H0, H1, H2. reflexivity.
+    - intros s eol els es _ H.
+      change (wf_ents (uncommented (REntry (KShort s) ENull) :: es)) with (true && true && wf_ents es).
+      rewrite H. reflexivity.
+    - intros g eol e els es _ H1 _ H2.
+      change (wf_ents (uncommented (REntry (KSpread e) ENull) :: es)) with (true && (wf e && true) && wf_ents es).
+      rewrite H1, H2. reflexivity.
+    - (* DE_nil *)
+      intros stmts ret Hs Hp Hr. destruct ret as [rl r rt]. cbn [wf]. fold (wf_cms stmts).
+      rewrite Hs, Hp, Hr. reflexivity.
+    - (* DE_stmt *)
+      intros g c e els stmts ret t _ He _ IH Hs Hp Hr. apply IH; try assumption.
+      rewrite wf_cms_app, Hs. change (wf_cms [uncommented e]) with (true && wf e && true). rewrite He. reflexivity.
+    - intros s c els stmts ret t _ IH Hs Hp Hr. apply IH; assumption.
+    - intros s els stmts ret t _ IH Hs Hp Hr. apply IH; assumption.
+    - intros g e els stmts ret t _ He _ IH Hs Hp Hr. apply IH; [exact Hs | reflexivity | exact He].
+  Qed.
+End OutputsWf.
+
+Lemma impl_no_invert : forall r, assoc_find r prefix_map <> Some (PUn Invert).
+Proof. destruct r; vm_compute; discriminate. Qed.
+
+(* every tree the crate's parser builds is wf: the round-trip theorems cover all of its outputs *)
+Theorem impl_outputs_wf : forall its t, Items impl_table infix_map prefix_map its t -> wf t = true.
+Proof.
+  intros its t H.
+  exact (proj1 (proj2 (proj2 (proj2 (proj2 (outputs_wf impl_table infix_map prefix_map impl_no_invert))))) its t H).
+Qed.
+
+(* hence: whatever token stream produced t, the minimal and the fully parenthesised rendering of t
+   under spec_table parse back to t *)
+Corollary reparse_of_output : forall its t, Items impl_table infix_map prefix_map its t ->
+  pratt_impl (flat_min t) = Ok (Some t) /\ pratt_impl (flat_full t) = Ok (Some t).
+Proof.
+  intros its t H. pose proof (impl_outputs_wf its t H) as W.
+  split; apply pratt_spec_roundtrip_ample; exact W.
 Qed.
